@@ -101,6 +101,9 @@ type c15payload struct {
 	Want   string `json:"want"`
 	InGrp  bool   `json:"in_group"`
 	Scalar bool   `json:"scalar"`
+	// Poisoned: an extra key has a value the decoder of the wanted kind cannot accept, so the step may fall back to
+	// an unknown step (with a warning) - but never to another known kind
+	Poisoned bool `json:"poisoned,omitempty"`
 }
 
 // c15judge parses doc and compares the kind of the (first / nested) step.
@@ -120,8 +123,8 @@ func c15judge(p c15payload) (kind, detail string) {
 	wantUnknown := strings.HasPrefix(p.Want, "unknown")
 	if p.InGrp {
 		g, isGroup := st.(*pipeline.GroupStep)
-		if wantUnknown {
-			// A group whose child is unknown may itself be kept as an unknown step.
+		if wantUnknown || p.Poisoned {
+			// A group whose child is unknown (or falls back to unknown) may itself be kept as an unknown step.
 			if !isGroup {
 				if _, isU := st.(*pipeline.UnknownStep); !isU {
 					return "wrong-kind", "group with unknown child became " + c15kindOf(st)
@@ -162,8 +165,17 @@ func c15judge(p c15payload) (kind, detail string) {
 		}
 		return "", ""
 	}
+	if p.Poisoned && got == "unknown" {
+		if !warning.Is(err) {
+			return "no-warning", fmt.Sprintf("step that cannot be decoded as %s fell back to unknown without a warning (err=%v)", p.Want, err)
+		}
+		return "", ""
+	}
 	if got != p.Want {
 		return "wrong-kind", fmt.Sprintf("got %s step, want %s (err=%v)", got, p.Want, err)
+	}
+	if p.Poisoned {
+		return "", "" // decoded after all (the poisoned key is an ordinary extra key for this kind); warnings are the decoder's business
 	}
 	if err != nil {
 		return "spurious-warning", fmt.Sprintf("well-typed %s step parsed with warning: %v", p.Want, err)
@@ -218,8 +230,13 @@ func c15run(w *report.W) {
 		{{"", `null`}},
 		{{"steps", `[]`}, {"name", `"n"`}, {"id", `"i"`}},
 		{{"Command", `"x"`}, {"wait ", `"x"`}, {"types", `"wait"`}},
+		// poisoned: values that make the decoder of some kind fail
+		{{"env", `{"A":{"b":"c"}}`}},
+		{{"key", `["a","b"]`}},
+		{{"steps", `["frobnicate"]`}, {"label", `{"x":1}`}},
 	}
-	types := c15types[:13]
+	poisonedFrom := 7
+	types := c15types // the last entry is an explicit empty type: present, and not a known name
 	for mask := 0; mask < 1<<10; mask++ {
 		has := map[string]bool{}
 		var base []c15kv
@@ -233,7 +250,7 @@ func c15run(w *report.W) {
 			want := c15kindByKeys(has)
 			kvs := append([]c15kv{}, base...)
 			if ti != 0 {
-				want = c15kindByType(t)
+				want = c15kindByType(t) // "" (explicit, last entry) is an unknown type
 				kvs = append(kvs, c15kv{"type", fmt.Sprintf("%q", t)})
 			}
 			for ei, ex := range extrasList {
@@ -257,7 +274,7 @@ func c15run(w *report.W) {
 							continue
 						}
 						w.P.Evaluations++
-						p := c15payload{Doc: doc, Want: want, InGrp: inGrp}
+						p := c15payload{Doc: doc, Want: want, InGrp: inGrp, Poisoned: ei >= poisonedFrom}
 						kind, detail := c15judge(p)
 						w.Obs(fmt.Sprintf("want=%s grp=%v extras=%d result=%s", want, inGrp, ei, kind))
 						if len(ord) > 1 {
@@ -338,7 +355,8 @@ func init() {
 	register(&report.Check{
 		ID: "C15",
 		Rule: "finite table, fully enumerated: every subset of the ten kind-determining keys (well-typed values) x `type` in {absent, 9 known names, " +
-			"unknown, wrong case, near miss} x 7 extra-key sets (unknown nested key, key+label, empty-string key, aliases+steps, look-alike keys) x key orders " +
+			"unknown, wrong case, near miss, the empty string} x 10 extra-key sets (unknown nested key, key+label, empty-string key, aliases+steps, look-alike keys, and three 'poisoned' sets whose values the decoder of some kind rejects - " +
+			"nested env mapping, list-valued key, unknown child step + mapping-valued label: there the step may also fall back to unknown with a warning, never to another known kind) x key orders " +
 			"(all permutations up to 3-4 keys, rotations of sorted and reversed beyond), each parsed as a top-level step and as the only child of a group; " +
 			"plus all scalar step strings built from <=2 pieces of a 19-piece alphabet. Distinct = distinct document text; non-trivial = more than one key.",
 		Assumptions: []string{
